@@ -164,6 +164,8 @@ func runC06(c *Ctx) {
 	c.shared("R10", "C05/R3", "the evaluator computes the tree the parser built: every binary node evaluates its own two operands and applies its operator to them (no flattening of a chain of equal operators, which would regroup `1 + 2 + \"x\"`)", keyHas("operator Plus", "left-once", "left-before-right", "operand-source"), runC05)
 	c.shared("R6", "C13/R1", "member access binds tighter than binary `-`: an identifier is a run of letters, digits and '_' only, so `$.a-b` is `($.a) - b` and never the one name `a-b`", keyHas("identifier-class"), runC13)
 	c.shared("R12", "C13/R2", "prefix - binds looser than call, member and index on a literal as on a variable: the number token is digits and dots only and `-` is always a token of its own — a sign absorbed by the lexer makes `-2.5.floor()` group as `(-2.5).floor()`", keyHas("numeric-class", "numeric-token", "spelling -", "longest-match - "), runC13)
+	c.shared("R13", "C13/R6", "an operand is followed by its operators whatever the operand is, a match expression included: the layout flag (a statement ended here) is read by the statement-end test only, not by the operator loop", keyHas("flag-read"), c13NewlineFlag)
+	c.shared("R14", "C10/R6", "an operator application has the value its operands give it: evaluation keeps no memo keyed by source position (two operators on one left spine start at the same token)", keyHas("evaluator-state", "interpreter-state"), func(s *Ctx) { interpreterState(s, "R6") })
 	c.shared("R7", "C14/R4", "a root selector means what its text says: it reaches the expression parser unchanged (nothing is pasted in front of a leading parenthesis)", keyHas("root-list-contents"), func(s *Ctx) { rootsPerValue(s, "R4") })
 
 	// R2: the matrix
